@@ -168,6 +168,8 @@ func vBlockLeaves(b ast.AnalyzedBlock) int {
 	return b2i(b.Expression != nil && b.ResultType.Kind() != ast.NullTypeKind)
 }
 
+/*@ assume-pure analyzer/ast.AnalyzedExpression.Type nonnil @*/
+
 /*@ func blockLeavesValue
     serves C01, C02, C09
     inline
@@ -186,7 +188,7 @@ func vBlockLeaves(b ast.AnalyzedBlock) int {
 
 /*@ func (self *Compiler) insert
     ghostset depth = ghost(depth) + VStackEffect(instruction)
-    serves C01, C08, C11
+    serves C01, C08, C11, C02, C09
     requires self.aligned()
     ensures @aligned self.aligned() && self.CurrFn() == old(self.CurrFn())
     ensures @appended self.codeLen() == old(self.codeLen())+1 && result == old(self.codeLen())
@@ -196,7 +198,7 @@ func vBlockLeaves(b ast.AnalyzedBlock) int {
 
 /*@ func (self *Compiler) arithmeticHelper
     ensures @stack-effect ghost(depth) == old(ghost(depth)) - 1
-    serves C01, C04, C08
+    serves C01, C04, C08, C02, C09
     requires self.aligned()
     split op in 0..18
     requires op <= pAst.GreaterThanEqualInfixOperator
@@ -208,7 +210,7 @@ func vBlockLeaves(b ast.AnalyzedBlock) int {
 
 /*@ func (self *Compiler) compilePrefixOp
     ensures @stack-effect ghost(depth) == old(ghost(depth))
-    serves C01, C04, C08
+    serves C01, C04, C08, C02, C09
     requires self.aligned()
     ensures @aligned self.aligned() && self.CurrFn() == old(self.CurrFn())
     ensures @neg op == ast.MinusPrefixOperator ==> self.codeLen() == old(self.codeLen())+1 && self.emitted(0).Opcode() == Opcode_Neg && self.emittedSpan(0) == span
@@ -331,7 +333,7 @@ func b2i(b bool) int {
 /*@ func (self *Compiler) leaveTryBlocks
     ensures @stack-effect ghost(depth) == old(ghost(depth))
     loop 1 invariant ghost(depth) == entry(ghost(depth))
-    serves C11
+    serves C11, C02, C09
     requires self.aligned()
     ensures @aligned self.aligned() && self.CurrFn() == old(self.CurrFn())
     ensures @one-pop-per-open-block outerDepth <= self.tryDepth ==> self.codeLen() == old(self.codeLen()) + int(self.tryDepth - outerDepth)
@@ -353,7 +355,7 @@ func b2i(b bool) int {
 // were called in.
 
 /*@ template for (self *Compiler) compile*Expr*
-    serves C01, C11, C15
+    serves C01, C02, C09, C11, C15
     assume-safety
     requires self.scopesWF() && self.aligned()
     ensures @only-appends self.codeLen() >= old(self.codeLen())
@@ -428,7 +430,7 @@ func vInfixShape(op pAst.InfixOperator) int {
     ensures @stack-effect ghost(depth) == old(ghost(depth))
     loop "range node.Parameters.List" invariant ghost(depth) == 0
     loop "range singletonExtractors" invariant ghost(depth) == 0
-    serves C01, C11, C15
+    serves C01, C11, C15, C02, C09
     assume-safety
     requires self.scopesWF() && haskey(self.modules, self.currModule) && self.modules[self.currModule] != nil
     ensures @scope-stack-balanced self.scopesWF() && len(self.varScopes) == old(len(self.varScopes))
@@ -489,7 +491,7 @@ func vInfixShape(op pAst.InfixOperator) int {
 /*@ func (self *Compiler) compileLetStmt
     assert @initialiser-leaves-a-value after self.compileExpr(node.Expression) :: ghost(depth) == old(ghost(depth)) + 1
     ensures @stack-effect ghost(depth) == old(ghost(depth))
-    serves C01, C15
+    serves C01, C15, C02, C09
     assume-safety
     requires self.scopesWF() && self.aligned()
     ensures @scope-stack-balanced self.scopesWF() && len(self.varScopes) == old(len(self.varScopes)) && forall i in 0..len(self.varScopes) :: samemap(self.varScopes[i], old(self.varScopes[i]))
@@ -504,7 +506,7 @@ func vInfixShape(op pAst.InfixOperator) int {
 /*@ func (self *Compiler) compileBlock
     ensures @stack-effect ghost(depth) == old(ghost(depth)) + vBlockLeaves(node)
     loop 1 invariant ghost(depth) == entry(ghost(depth))
-    serves C01, C11, C15
+    serves C01, C11, C15, C02, C09
     assume-safety
     assumepre compileStmt
     split b2i(pushScope) in 0..1
@@ -524,9 +526,10 @@ func vInfixShape(op pAst.InfixOperator) int {
 /*@ func (self *Compiler) compileStmt
     assumes @loop-bodies-leave-nothing (node.Kind() == ast.LoopStatementKind ==> vBlockLeaves(node.(ast.AnalyzedLoopStatement).Body) == 0) && (node.Kind() == ast.WhileStatementKind ==> vBlockLeaves(node.(ast.AnalyzedWhileStatement).Body) == 0) && (node.Kind() == ast.ForStatementKind ==> vBlockLeaves(node.(ast.AnalyzedForStatement).Body) == 0)
     ghostat @trigger-registration before self.insert(newOneStringInstruction(Opcode_HostCall, RegisterTriggerHostFn), node.Span()) :: depth = ghost(depth) - 3 - len(node.TriggerArguments.List) + 1
+    assert @return-leaves-only-the-result before self.leaveTryBlocks(0, node.Span()) :: ghost(depth) == old(ghost(depth)) + b2i(node.ReturnValue != nil && node.ReturnValue.Type().Kind() != ast.NullTypeKind)
     ghostat @code-behind-return-is-dead after self.insert(newOneStringInstruction(Opcode_Jump, self.CurrFn().CleanupLabel), node.Span()) :: depth = old(ghost(depth))
     ensures @stack-effect ghost(depth) == old(ghost(depth))
-    serves C01, C11, C15
+    serves C01, C11, C15, C02, C09
     assume-safety
     assumepre compileBlock
     split node.Kind() in 0..10
@@ -560,7 +563,7 @@ func vInfixShape(op pAst.InfixOperator) int {
 
 /*@ func (self *Compiler) compileSingletonInit
     ensures @stack-effect ghost(depth) == old(ghost(depth))
-    serves C01, C15
+    serves C01, C15, C02, C09
     assume-safety
     requires self.scopesWF() && self.aligned()
     ensures @scope-stack-balanced self.scopesWF() && len(self.varScopes) == old(len(self.varScopes)) && forall i in 0..len(self.varScopes) :: samemap(self.varScopes[i], old(self.varScopes[i]))
